@@ -25,6 +25,7 @@ import (
 	"github.com/nspcc-dev/neo-go/pkg/core/block"
 	"github.com/nspcc-dev/neo-go/pkg/core/native/nativeids"
 	"github.com/nspcc-dev/neo-go/pkg/core/native/nativenames"
+	"github.com/nspcc-dev/neo-go/pkg/core/native/noderoles"
 	"github.com/nspcc-dev/neo-go/pkg/core/state"
 	"github.com/nspcc-dev/neo-go/pkg/core/storage"
 	"github.com/nspcc-dev/neo-go/pkg/core/transaction"
@@ -34,8 +35,10 @@ import (
 	"github.com/nspcc-dev/neo-go/pkg/neotest"
 	"github.com/nspcc-dev/neo-go/pkg/neotest/chain"
 	"github.com/nspcc-dev/neo-go/pkg/smartcontract"
+	"github.com/nspcc-dev/neo-go/pkg/core/fee"
 	"github.com/nspcc-dev/neo-go/pkg/smartcontract/callflag"
 	"github.com/nspcc-dev/neo-go/pkg/util"
+	"github.com/nspcc-dev/neo-go/pkg/vm"
 	"github.com/nspcc-dev/neo-go/pkg/vm/emit"
 	"github.com/nspcc-dev/neo-go/pkg/vm/opcode"
 	"github.com/nspcc-dev/neo-go/pkg/vm/stackitem"
@@ -397,6 +400,71 @@ func (c *c05Chain) mkTx(h util.Uint160, method string, args []any, sysFee int64,
 	return
 }
 
+// c05NotaryTx builds a transaction with the NotaryAssisted attribute, witnessed for the Notary contract by the first
+// designated P2PNotary node (the universe holds its private key).  K = 0: signers [Notary (scope None), payer F]: the
+// fees are burnt from the Notary contract and charged to F's deposit by Notary.OnPersist;  K != 0: signers [F, Notary].
+// nil, nil = cannot be built now (no notary node designated / the node is not of the universe).
+func (c *c05Chain) c05NotaryTx(op c05Op) (tx *transaction.Transaction, err error) {
+	err = c05Try(func() {
+		u := c.u
+		if op.F <= 0 || op.F >= len(u.signers) || u.signers[op.F] == nil || op.To < 0 || op.To >= len(u.hashes) {
+			return
+		}
+		payer, ok := u.signers[op.F].(neotest.SingleSigner)
+		if !ok {
+			return
+		}
+		nodes, _, e := c.bc.GetDesignatedByRole(noderoles.P2PNotary)
+		if e != nil || len(nodes) == 0 {
+			return
+		}
+		k := u.key(nodes[0].Bytes())
+		if k == 999 {
+			return
+		}
+		node, ok := u.signers[u.acctOfKey[k]].(neotest.SingleSigner)
+		if !ok {
+			return
+		}
+		w := io.NewBufBinWriter()
+		emit.AppCall(w.BinWriter, c.gasH, "transfer", callflag.All, u.hashes[op.F], u.hashes[op.To], op.A, nil)
+		t := transaction.New(w.Bytes(), c05FeeSimple)
+		c.nonce++
+		t.Nonce = c.nonce
+		t.ValidUntilBlock = c.bc.BlockHeight() + 1
+		t.Attributes = []transaction.Attribute{{Type: transaction.NotaryAssistedT, Value: &transaction.NotaryAssisted{NKeys: uint8(op.N)}}}
+		ns := transaction.Signer{Account: c.notH, Scopes: transaction.None}
+		ps := transaction.Signer{Account: payer.ScriptHash(), Scopes: transaction.Global}
+		if op.K == 0 {
+			t.Signers = []transaction.Signer{ns, ps}
+		} else {
+			t.Signers = []transaction.Signer{ps, ns}
+		}
+		base := c.bc.GetBaseExecFee()
+		nf, sz := fee.Calculate(base, payer.Script())
+		size := io.GetVarSize(t) + sz + 68 // the Notary witness: 66 bytes of invocation script, no verification script
+		t.NetworkFee = nf + int64(size)*c.bc.FeePerByte() + c.bc.CalculateAttributesFee(t) + vm.PicoGasToDatoshiInt64(40000*base) + 10_0000
+		if op.W == 1 && op.K == 0 { // the fees are exactly the deposit
+			if d := c.bc.GetUtilityTokenBalance(c.notH, payer.ScriptHash()).Int64(); d-t.SystemFee >= t.NetworkFee {
+				t.NetworkFee = d - t.SystemFee
+			}
+		}
+		if os.Getenv("VERIF_DEBUG") != "" {
+			fmt.Fprintf(os.Stderr, "na %+v: deposit %v fees %d+%d node key %d height %d\n", op, c.bc.GetUtilityTokenBalance(c.notH, payer.ScriptHash()), t.SystemFee, t.NetworkFee, k, c.bc.BlockHeight())
+		}
+		magic := uint32(c.bc.GetConfig().Magic)
+		nw := transaction.Witness{InvocationScript: node.SignHashable(magic, t), VerificationScript: []byte{}}
+		pw := transaction.Witness{InvocationScript: payer.SignHashable(magic, t), VerificationScript: payer.Script()}
+		if op.K == 0 {
+			t.Scripts = []transaction.Witness{nw, pw}
+		} else {
+			t.Scripts = []transaction.Witness{pw, nw}
+		}
+		tx = t
+	})
+	return
+}
+
 // committeeSigner builds the majority multi-signature signer of the committee the chain has NOW (the universe
 // holds every private key): committee-only methods check the witness of the current committee address, which
 // changes when candidates are voted in.
@@ -517,6 +585,8 @@ func (c *c05Chain) c05BuildTx(op c05Op) (*transaction.Transaction, error) {
 		return c.mkTx(c.notH, "withdraw", []any{h(from), to}, c05FeeSimple, nil, op.F)
 	case "lock":
 		return c.mkTx(c.notH, "lockDepositUntil", []any{h(op.F), int64(op.N)}, c05FeeSimple, nil, op.F)
+	case "na": // a GAS transfer F -> To of A carrying NotaryAssisted{NKeys: N}; K = 0: sent by the Notary contract, K != 0: by F
+		return c.c05NotaryTx(op)
 	case "fault": // moves NEO and GAS, then aborts: everything but the fee is rolled back
 		w := io.NewBufBinWriter()
 		emit.AppCall(w.BinWriter, c.neoH, "transfer", callflag.All, h(op.F), h(op.To), op.A, nil)
